@@ -7,7 +7,8 @@
    written from osmformat.proto. *)
 From Coq Require Import ZArith List Bool.
 From Verif Require Import Base.Int64 Pbf.Tree Pbf.Model Pbf.Spec Pbf.Header Pbf.CheckLib Pbf.ProofsArith Pbf.ProofsIndep
-     Pbf.ProofsDecode Pbf.ProofsDense Pbf.ProofsAll Pbf.ProofsHeader Pbf.ProofsFile Pbf.ProofsNoPanic Pbf.ProofsLayout Pbf.ProofsHeaderLayout.
+     Pbf.ProofsDecode Pbf.ProofsDense Pbf.ProofsAll Pbf.ProofsHeader Pbf.ProofsFile Pbf.ProofsNoPanic Pbf.ProofsLayout Pbf.ProofsHeaderLayout Pbf.ProtoTypes Pbf.Dispatch Pbf.GenOk.
+From VerifGen Require GenProto GenPbfCode.
 Import ListNotations.
 Open Scope Z_scope.
 
@@ -166,3 +167,34 @@ Theorem C01_header_faithful_every_layout : forall h m,
   valid_header h = true -> canon_header m = encode_header h -> decode_header m = Ok (header_of h).
 Proof. exact header_layout_irrelevant. Qed.
 Print Assumptions C01_header_faithful_every_layout.
+
+(* 9. TIE BY TRANSLATION.  coq/gen/GenPbfCode.v is re-read on every run from osmpbf/decode_data.go,
+      decode.go and the generated *.pb.go (go/ast), coq/gen/GenProto.v from the two .proto files.
+      (a) Every field loop of the model is the table-driven loop of Pbf/Dispatch.v; (b) the tables are
+      exactly the source's `switch x.FieldNumber()` dispatch: field number, skip-flag guard, accessor
+      called on the message, accessors called on the elements of the iterator (followed into
+      extractDenseNodes / scanTags / extractMembers), receiving object fields; (c) that dispatch agrees
+      with the .proto numbering, types, labels and packing, covers every field of every message (changesets
+      ignored by design), and the defaults are granularity 100 / date_granularity 1000.  More obligations
+      (offset defaults, getters, the 1e-9 literal, capability set, generated Go structs = .proto, header
+      field map and numbers) are in Pbf/GenOk.v (C_*, D_* lemmas). *)
+Theorem C01_decoder_dispatch_matches_proto :
+  (forall p f, pass1_step p f = pass1_step_t p f) /\ (forall c s f, group_step c s f = group_step_t c s f)
+  /\ (forall s f, dense_step s f = dense_step_t s f) /\ (forall s f, dinfo_step s f = dinfo_step_t s f)
+  /\ (forall p s f, way_step p s f = way_step_t p s f) /\ (forall p s f, rel_step p s f = rel_step_t p s f)
+  /\ (forall p i f, info_step p i f = info_step_t p i f) /\ (forall p v x, extract_pre p v x = extract_pre_t p v x)
+  /\ (forall m, Header.decode_header m = decode_header_t m)
+  /\ map (view p1_targets yes) pass1_table = GenPbfCode.dispatch_scanPrimitiveBlock
+  /\ map (view p2_targets yes) pass2_table = GenPbfCode.dispatch_scanPrimitiveBlock_pass2
+  /\ map (view g_targets g_call) group_table = GenPbfCode.dispatch_scanPrimitiveGroup
+  /\ map (view d_targets yes) dense_table = GenPbfCode.dispatch_scanDenseNodes
+  /\ map (view (i_targets sNode) yes) dinfo_table = GenPbfCode.dispatch_scanDenseNodes_info
+  /\ map (view w_targets yes) way_table = GenPbfCode.dispatch_scanWays
+  /\ map (view (i_targets sWay) yes) info_table = GenPbfCode.dispatch_scanWays_info
+  /\ map (view r_targets yes) rel_table = GenPbfCode.dispatch_scanRelations
+  /\ map (view (i_targets sRelation) yes) info_table = GenPbfCode.dispatch_scanRelations_info
+  /\ map (fun r => (fst (fst r), snd (fst r))) header_table = GenPbfCode.header_map
+  /\ proto_agrees = true
+  /\ proto_default sPrimitiveBlock 17 = Some (gran p0) /\ proto_default sPrimitiveBlock 18 = Some (dgran p0).
+Proof. exact decoder_dispatch_matches_proto. Qed.
+Print Assumptions C01_decoder_dispatch_matches_proto.
